@@ -1,4 +1,4 @@
-"""pyvc.engine -- per-function verification driver (path exploration, entry state, postconditions)."""
+"""pvc.engine -- per-function verification driver (path exploration, entry state, postconditions)."""
 from __future__ import annotations
 import ast, time
 from .smt import *
@@ -118,8 +118,11 @@ class Engine(StmtMixin, CallMixin, ExprMixin, EngineBase):
         return {"function": short, "paths": npaths, "outcomes": outcomes, "gen_s": round(time.time() - t0, 3)}
 
     def post_normal(self, short, k, st, res, fn):
-        if isinstance(res, tuple) and res and res[0] in ("empty", "mapview"):
+        if isinstance(res, tuple) and res and res[0] == "mapview":
             res = self.opaque("res")
+        if isinstance(res, EmptyV):
+            rs0 = k.get("returns")
+            res = self.empty_of(rs0) if isinstance(rs0, tuple) and rs0[0] in ("Map", "Set", "Seq", "Array") else self.opaque("res")
         rs = k.get("returns")
         if isinstance(rs, list):
             if isinstance(res, TupV) and len(res.items) == len(rs):
